@@ -9,16 +9,17 @@ import (
 
 // PropMeta is the static description of one check.
 type PropMeta struct {
-	Level        string
-	Rule         string
-	Real         []string
-	Stub         []string
-	Assumptions  []string
-	QuickS       float64
-	ThoroughS    float64
-	QuickWorkers int
-	Race         bool
-	Exhaustive   string // name of the completely enumerated dimension, if any
+	Level                     string
+	Rule                      string
+	Real                      []string
+	Stub                      []string
+	Assumptions               []string
+	QuickS                    float64
+	ThoroughS                 float64
+	QuickWorkers              int
+	Race                      bool
+	Exhaustive                string // name of the completely enumerated dimension, if any
+	QuickSeeds, ThoroughSeeds int    // seeds per enumerated variant
 }
 
 var commonAssumptions = []string{
@@ -45,7 +46,7 @@ var props = map[string]PropMeta{
 		Rule: "histories as in C01 (role x trust x user plan incl. local close x up to 32 peer events, 10% deviant) combined with one injected transport write failure: variant a<k> = the k-th write fails and the transport reports closed afterwards (what ws does), b<k> = only the k-th write fails (what the interface permits); k enumerated 1..W+2 where W = writes of a fault-free handshake; oracle = reference SHIP state graph (written from the specification), phase order, terminal-is-final, transport closed, no activity in a 6 minute input-free period after a terminal outcome; " +
 			"non-trivial = the injected failure fired (or fault-free variant); distinct = distinct (variant, configuration, set of (state, input class)) tuples",
 		Real: ship1Real, Stub: ship1Stub,
-		QuickS: 25, ThoroughS: 420, QuickWorkers: 6,
+		QuickS: 25, ThoroughS: 420, QuickWorkers: 6, QuickSeeds: 2500, ThoroughSeeds: 60000,
 		Exhaustive: "index k of the single failing transport write (both failure semantics), k = 1..W+2",
 	},
 	"C14": {
@@ -80,9 +81,9 @@ var props = map[string]PropMeta{
 		Level: "fault_enumeration",
 		Rule: "a scripted session (5 data frames each way around one ping/pong round) is run fault-free to count the transport reads R and writes W; then one run per variant: k-th read fails (k=1..R+2), k-th write fails (k=1..W+2), peer close frame with each of 7 codes, peer EOF, reset, local close with/without reason - each variant x seeded schedules; " +
 			"non-trivial = the fault or remote close actually happened inside the session; distinct = distinct (variant, role, cause) tuples",
-		Real:       []string{"ws.WebsocketConnection", "gorilla/websocket (both ends)"},
-		Stub:       []string{"transport (simnet.Conn pair with per-call fault index)", "SHIP layer above ws (recorder)", "peer application (scripted)"},
-		QuickS:     25, ThoroughS: 300, QuickWorkers: 6,
+		Real:   []string{"ws.WebsocketConnection", "gorilla/websocket (both ends)"},
+		Stub:   []string{"transport (simnet.Conn pair with per-call fault index)", "SHIP layer above ws (recorder)", "peer application (scripted)"},
+		QuickS: 25, ThoroughS: 300, QuickWorkers: 6, QuickSeeds: 250, ThoroughSeeds: 6000,
 		Exhaustive: "index k of the failing transport read / write within the scripted session (every k up to the fault-free count + 2), close codes, close kinds",
 	},
 	"C12": {
